@@ -210,7 +210,7 @@ def readChunks (s : String) : Option (List Bytes) :=
 
 def tokText (reader : Bool) (chunks : List Bytes) : String :=
   let evs := tokEvents Json.ojTables (tokCfg reader) chunks
-  let out := match Json.run Json.ojTables (tokCfg reader) chunks with
+  let out := match tokRun Json.ojTables (tokCfg reader) chunks with
     | .ok docs => "ok " ++ toString docs.length
     | .error _ => "err"
   (if evs.isEmpty then "-" else String.intercalate " " (evs.map eventText)) ++ "|" ++ out
